@@ -105,7 +105,7 @@ impl Timestamp {
                 .unwrap(),
         );
 
-        if nanos > 1_000_000_000 {
+        if nanos >= 1_000_000_000 {
             return Err(Error::Invalid);
         }
 
